@@ -181,3 +181,99 @@ pub fn pre_commit_untracked(v: &Value) -> Value {
     let _ = std::fs::remove_dir_all(&dir);
     json!({"run": out})
 }
+
+/// K5: {staged_files: [..]}: an agent's line is pending, a person typed a line without reporting it; `staged_files`
+/// says what the index holds; the real pre_commit must leave a Human checkpoint entry for the file
+pub fn pre_commit_always(v: &Value) -> Value {
+    use git_ai::authorship::working_log::CheckpointKind;
+    let dir = std::env::temp_dir().join(format!("vreplay-c14c-{}", std::process::id()));
+    let _ = std::fs::remove_dir_all(&dir);
+    std::fs::create_dir_all(&dir).unwrap();
+    let git = |args: &[&str]| {
+        let o = std::process::Command::new("git")
+            .args(args)
+            .current_dir(&dir)
+            .env("GIT_AUTHOR_NAME", "v")
+            .env("GIT_AUTHOR_EMAIL", "v@v")
+            .env("GIT_COMMITTER_NAME", "v")
+            .env("GIT_COMMITTER_EMAIL", "v@v")
+            .output()
+            .unwrap();
+        assert!(o.status.success(), "git {:?}: {}", args, String::from_utf8_lossy(&o.stderr));
+        String::from_utf8_lossy(&o.stdout).trim().to_string()
+    };
+    git(&["init", "-q", "."]);
+    git(&["config", "user.name", "v"]);
+    git(&["config", "user.email", "v@v"]);
+    std::fs::write(dir.join("f"), "base 1\n").unwrap();
+    std::fs::write(dir.join("g"), "g\n").unwrap();
+    git(&["add", "-A"]);
+    git(&["commit", "-q", "-m", "c1"]);
+    let head = git(&["rev-parse", "HEAD"]);
+    let repo = git_ai::git::find_repository_in_path(dir.to_str().unwrap()).expect("repo");
+    std::fs::write(dir.join("f"), "base 1\nai 1\n").unwrap();
+    let run = git_ai::commands::checkpoint_agent::agent_presets::AgentRunResult {
+        agent_id: git_ai::authorship::working_log::AgentId { tool: "mock_ai".into(), id: "s1".into(), model: "m".into() },
+        agent_metadata: None,
+        checkpoint_kind: CheckpointKind::AiAgent,
+        transcript: None,
+        repo_working_dir: Some(dir.to_string_lossy().to_string()),
+        edited_filepaths: Some(vec!["f".to_string()]),
+        will_edit_filepaths: None,
+        dirty_files: None,
+    };
+    git_ai::commands::checkpoint::run(&repo, "v", CheckpointKind::AiAgent, false, false, true, Some(run), false).unwrap();
+    std::fs::write(dir.join("f"), "base 1\nperson 1\nai 1\n").unwrap();
+    std::fs::write(dir.join("g"), "g\ng2\n").unwrap();
+    for f in v["staged_files"].as_array().unwrap() {
+        git(&["add", f.as_str().unwrap()]);
+    }
+    let r = git_ai::authorship::pre_commit::pre_commit(&repo, "v".to_string());
+    let wl = repo.storage.working_log_for_base_commit(&head);
+    let cks = wl.read_all_checkpoints().unwrap_or_default();
+    let humans = cks.iter().filter(|c| c.kind == CheckpointKind::Human && c.entries.iter().any(|e| e.file == "f")).count();
+    let mut failed: Vec<&str> = Vec::new();
+    if humans == 0 {
+        failed.push("K5-commit-time-checkpoint-is-always-taken");
+    }
+    let _ = std::fs::remove_dir_all(&dir);
+    json!({"ok": r.is_ok(), "failed": failed, "checkpoints": cks.len()})
+}
+
+/// K6: {previous: [kind?], new_kind, same_tree}: the real append_checkpoint on a real working log
+pub fn append_stores(v: &Value) -> Value {
+    use git_ai::authorship::working_log::{Checkpoint, CheckpointKind, WorkingLogEntry};
+    let dir = std::env::temp_dir().join(format!("vreplay-c14a-{}", std::process::id()));
+    let _ = std::fs::remove_dir_all(&dir);
+    std::fs::create_dir_all(&dir).unwrap();
+    let o = std::process::Command::new("git").args(["init", "-q", "."]).current_dir(&dir).output().unwrap();
+    assert!(o.status.success());
+    let repo = git_ai::git::find_repository_in_path(dir.to_str().unwrap()).expect("repo");
+    let wl = repo.storage.working_log_for_base_commit("0123456789012345678901234567890123456789");
+    let kind = |s: &str| if s == "Human" { CheckpointKind::Human } else { CheckpointKind::AiAgent };
+    let prev: Vec<String> = v["previous"].as_array().unwrap().iter().map(|x| x.as_str().unwrap().to_string()).collect();
+    if let Some(k0) = prev.first() {
+        let c0 = Checkpoint::new(kind(k0), "tree1".into(), "x".into(), vec![WorkingLogEntry::new("a".into(), "b0_a".into(), vec![], vec![])]);
+        wl.write_all_checkpoints(&[c0]).unwrap();
+    }
+    let diff = if v["same_tree"].as_bool().unwrap() { "tree1" } else { "tree2" };
+    let c1 = Checkpoint::new(
+        kind(v["new_kind"].as_str().unwrap()),
+        diff.into(),
+        "x".into(),
+        vec![WorkingLogEntry::new("a".into(), "b1_a".into(), vec![], vec![]), WorkingLogEntry::new("b".into(), "b1_b".into(), vec![], vec![])],
+    );
+    let r = wl.append_checkpoint(&c1);
+    let cks = wl.read_all_checkpoints().unwrap_or_default();
+    let mut failed: Vec<&str> = Vec::new();
+    if r.is_err() {
+        failed.push("K6-append-ok");
+    }
+    if cks.len() != prev.len() + 1 {
+        failed.push("K6-every-checkpoint-is-stored");
+    } else if cks.last().map(|c| c.entries.len()) != Some(2) {
+        failed.push("K6-stored-checkpoint-keeps-its-entries");
+    }
+    let _ = std::fs::remove_dir_all(&dir);
+    json!({"failed": failed, "stored": cks.len()})
+}
